@@ -1472,6 +1472,7 @@ Lemma w_new_SI : forall deflate cfg min max st0,
 Proof.
   intros deflate cfg min max st0 H st. unfold w_new in H.
   destruct (N.leb_spec 16777216 (c_block_size cfg)) as [L|L]; [discriminate|].
+  destruct (block_too_small cfg) eqn:TS; [discriminate|].
   apply Ok_inj in H. subst st0. split; [exact L|].
   split; [|split; [discriminate|reflexivity]].
   constructor.
@@ -2584,6 +2585,13 @@ Section Table.
   (* documented domain of the writer *)
   Definition cfg_ok (c : config) : Prop :=
     c_block_size c < 16777216 /\ (c_block_size c = 0 \/ 64 <= c_block_size c).
+  (* on that domain NewWriter's second guard (block size >= file header + block header) passes *)
+  Lemma cfg_ok_not_small : forall c, cfg_ok c -> block_too_small c = false.
+  Proof.
+    intros c [_ B]. unfold block_too_small, cfg_defaults, header_size. cbn [c_block_size c_sha256].
+    apply negb_false_iff, N.leb_le.
+    destruct (N.eqb_spec (c_block_size c) 0) as [Z|Z]; destruct (c_sha256 c); lia.
+  Qed.
   Definition refs_ok (c : config) (min max : N) (refs : list ref_record) : Prop :=
     Forall (fun r => ref_ok (hash_size c) r /\ r_name r <> [] /\
                      N.of_nat (length (r_name r)) < 2 ^ 60 /\ min <= r_index r <= max) refs /\
